@@ -549,6 +549,12 @@ func (s *BaseNodeService) reinitDKG(message storage.Message) error {
 			break
 		}
 
+		// the reinit message describes one round: embedded messages of any
+		// other round must not be applied (they are processed unverified)
+		if msg.DkgRoundID != req.DKGID {
+			continue
+		}
+
 		// LDC-07 Messages May Be Sent to a Single Node
 		//
 		// If we remove the broadcast and send only individual messages,
@@ -596,7 +602,7 @@ func (s *BaseNodeService) reinitDKG(message storage.Message) error {
 		return fmt.Errorf("failed to get FSM dump")
 	}
 
-	if err := s.fsmService.SaveFSM(message.DkgRoundID, fsmDump); err != nil {
+	if err := s.fsmService.SaveFSM(req.DKGID, fsmDump); err != nil {
 		return fmt.Errorf("failed to SaveFSM: %w", err)
 	}
 
